@@ -91,8 +91,8 @@ def is_operator_form(e: Any) -> bool:
 def depth2(tier: str) -> List[Any]:
     """Every form x every assignment of {leaf} + depth-one forms to its child slots; forms with more than two slots get
     every assignment in which at most two slots are not leaves.
-    quick: every single-slot substitution for every form; pairs of substitutions in full for the operator forms (unary,
-    binary, boolean, comparison, conditional) and, for the other forms, with both children taken from the operator forms."""
+    quick: every single-slot substitution for every form; pairs of substitutions with both children taken from the
+    operator forms (unary, binary, boolean, comparison, conditional) -- the children whose display depends on the parent."""
     subs = d1_forms(tier)
     op_subs = [x for x in subs if is_operator_form(x)]
     out: List[Any] = []
@@ -101,7 +101,7 @@ def depth2(tier: str) -> List[Any]:
         if not pos:
             continue
         for k in (1, 2):
-            pool = subs if (k == 1 or tier == 'thorough' or form[0] in (3, 4, 5)) else op_subs
+            pool = subs if (k == 1 or tier == 'thorough') else op_subs
             for chosen in itertools.combinations(range(len(pos)), k):
                 for vals in itertools.product(pool, repeat=k):
                     e = form
